@@ -51,18 +51,120 @@ def ordered_subtractions(ctx, w, fns, rule):
     return n
 
 
+def reflow_fn(w, S):
+    """The re-wrapping routine: the local function the buffer's resize hands the drained line vector and the new width."""
+    rf = S.buffer_resize_fn
+    if not rf:
+        return None
+    cands = []
+    for cs in w.E.call_sites(rf):
+        fo = w.facts.fns.get(cs.callee) or {}
+        if cs.local and (fo.get("output") or {}).get("s", "").startswith("alloc::vec::Vec<%s" % S.line_ty) and [i["s"] for i in fo.get("inputs", [])][-1:] == ["usize"] and cs.callee in w.facts.hir:
+            cands.append(cs.callee)
+    return cands[0] if len(set(cands)) == 1 else None
+
+
+def reflow_semantics(w, S, fn, thorough=False):
+    """The re-wrapping routine evaluated on concrete small line vectors: old width 1..3 (4 in the thorough tier), 1..3 rows, every
+    row over {letter, default blank} plus rows with a painted blank, every soft-wrap pattern with the last row unmarked, every new
+    width 1..5 (6).  Required: every output row has exactly the new width; the last output row is unmarked; and the sequence of
+    LOGICAL lines (rows joined through the marks, trailing default cells dropped, painted blanks kept) is the same before and after.
+    -> (True, n) | (False, what)"""
+    import itertools
+    from rules import prims, c11
+    DP = c11.default_pen
+    n = 0
+
+    def cell(ch):
+        p = DP()
+        if ch == "#":
+            p[2]["background"] = H.some(("v", "color::Color::Indexed", (4,)))
+        return ("v", "cell::Cell", (("chr", 32 if ch in " #" else ord(ch)), p))
+
+    def logical(rows):
+        out, cur = [], []
+        for txt, m in rows:
+            cur += list(txt)
+            if not m:
+                while cur and cur[-1] == " ":
+                    cur.pop()
+                out.append("".join(cur))
+                cur = []
+        if cur:
+            out.append("".join(cur) + "<open>")
+        return out
+    letters = "abcdefghijkl"
+    for cw in range(1, 5 if thorough else 4):
+        shapes = ["".join(x) for x in itertools.product("x ", repeat=cw)] + (["#" + "x" * (cw - 1), "x" * (cw - 1) + "#"] if cw >= 1 else [])
+        shapes = sorted(set(shapes))
+        for nrows in range(1, 4):
+            combos = itertools.product(shapes, repeat=nrows)
+            for k_, shp in enumerate(combos):
+                if nrows == 3 and k_ % (3 if thorough else 7):
+                    continue          # a fixed thinning of the three-row inputs
+                for marks in itertools.product((False, True), repeat=nrows - 1):
+                    marks = list(marks) + [False]
+                    li = iter(letters)
+                    rows_in = [("".join(next(li) if c == "x" else c for c in s_), m) for s_, m in zip(shp, marks)]
+                    for cols in range(1, 7 if thorough else 6):
+                        if cols == cw:
+                            continue
+                        lines = [("obj", S.line_ty, {S.cells_field: prims.Vec([cell(c) for c in txt]), S.wrap_field: m}) for txt, m in rows_in]
+                        try:
+                            r = c11.StrInterp(w.facts).call_fn(fn, [("iter", lines), cols])
+                        except prims.errs() as ex:
+                            return False, "rows %s re-wrapped to %d columns: %s" % (rows_in, cols, ex)
+                        n += 1
+                        if not isinstance(r, prims.Vec):
+                            return False, "result %r" % (r,)
+                        rows_out = []
+                        for l in r.items:
+                            cs_ = l[2][S.cells_field].items
+                            txt = ""
+                            for c in cs_:
+                                ch = chr(c[2][0][1]) if isinstance(c[2][0], tuple) else chr(c[2][0])
+                                painted = c[2][1] != DP()
+                                txt += "#" if (ch == " " and painted) else ch
+                            rows_out.append((txt, bool(l[2][S.wrap_field])))
+                        desc = "rows %s re-wrapped from %d to %d columns give %s" % (rows_in, cw, cols, rows_out)
+                        if any(len(t) != cols for t, _ in rows_out):
+                            return False, desc + ": a row does not have exactly %d cells" % cols
+                        if rows_out and rows_out[-1][1]:
+                            return False, desc + ": the last row is marked soft-wrapped"
+                        if logical(rows_in) != logical(rows_out):
+                            return False, desc + ": logical lines %s became %s" % (logical(rows_in), logical(rows_out))
+    return True, n
+
+
 def run(ctx, w):
     S = shared.screen(w)
     R = shared.roles(w)
     E = w.E
-    ctx.explanation = ("NARROW. Whether text survives a reflow depends on the values moved by Line::extend/contract and on cursor-translation arithmetic, which no static argument in "
-                       "reach establishes. Decided are three necessary structural clauses: trailing blanks are trimmed only from rows that are not soft-wrapped (inside a logical line "
+    # Q9: the re-wrapping itself, evaluated
+    ctx.rule("Q9", "the re-wrapping routine evaluated on concrete line vectors (old width 1..3, 1..3 rows over letters / default blanks / painted blanks, every soft-wrap pattern, every new width 1..5): "
+                   "rows of exactly the new width, last row unmarked, and the same sequence of logical lines (trailing default cells aside) before and after")
+    rfn = reflow_fn(w, S)
+    if not rfn:
+        ctx.missing_anchor("Q9", "the re-wrapping routine called by the buffer's resize")
+    else:
+        c9 = getattr(w.facts, "_reflow_verdict", None)
+        if c9 is None:
+            try:
+                c9 = reflow_semantics(w, S, rfn, thorough=getattr(ctx, "tier", "") == "thorough")
+            except Exception as ex:
+                c9 = (False, "cannot evaluate %s: %r" % (rfn, ex))
+            w.facts._reflow_verdict = c9
+        ctx.check(c9[0] is True, "Q9", "reflow", str(c9[1]), loc=w.fn_loc(rfn), sample={"cases": c9[1]})
+        if c9[0] is True:
+            ctx.rule_counts["Q9"] = c9[1]
+    ctx.explanation = ("PARTIAL. The re-wrapping of the rows is decided by evaluation on small concrete line vectors (Q9: same logical lines before and after, rows of the new width); "
+                       "the cursor translation and the view re-anchoring arithmetic are not - for those, decided are three necessary structural clauses: trailing blanks are trimmed only from rows that are not soft-wrapped (inside a logical line "
                        "blanks are content); the cursor is translated through logical coordinates computed with the old geometry before the rows are re-wrapped and mapped back with "
                        "the new width afterwards; height differences are taken between the two compared values in the non-underflowing order.")
     ctx.decided = ["Q1 blank-trimming of a row is conditional on that row not being soft-wrapped", "Q2 ordered subtraction in the arms of the size comparisons",
                    "Q3 cursor translation: logical position from the OLD cols/rows before the reflow, relative position with the NEW cols after it; the buffer adopts exactly the requested size on every path",
                    "Q4 wrap-pending is cleared when the width changes (shared with C02.R4)"]
-    ctx.not_decided = ["that every logical line above the cursor is unchanged, that the cursor stays on the same character, that lines below are only cut short - the reflow value flow (Line::extend/contract, Reflow::next) and the view re-anchoring arithmetic"]
+    ctx.not_decided = ["that the cursor stays on the same character and that lines below it are only cut short - the cursor translation and view re-anchoring arithmetic of Buffer::resize (only its structure is decided, Q3 / Q5 / Q8); re-wrapping beyond the evaluated bounds of Q9"]
     rf = S.buffer_resize_fn
     if not rf:
         ctx.missing_anchor("Q3", "buffer resize routine")
